@@ -26,7 +26,7 @@ from sx.terms import DIGIT, LOWER, UPPER, PChar
 BOUNDS = {"quick": {"countries": "the 22 countries with a national algorithm + DE + 8 seeded others + the no-country form", "modes": "registry / no registry", "pins": "none; branch; bank+branch+account", "iterations": "2 of the 100 retries", "registry draws": "codes of the country's list (chunks of 400, one seeded chunk per country)"},
           "thorough": {"countries": "all", "modes": "both", "pins": "none; bank; branch; account; bank+branch; all three", "iterations": 2, "registry draws": "all chunks"}}
 STUBS = ["random.Random.choice: arbitrary element (fork / symbolic bank code constrained to the listed codes)", "rstr.Rstr(random).xeger(regex): arbitrary string matching the regex token by token (\\d = ASCII digits, as rstr draws them)", "range(100) of the retry loop cut to 2 iterations"]
-ASSUMPTIONS = ["random and rstr are deterministic functions of the seed (their own cross-process behaviour is outside)", "over-long pinned values are truncated by the code (observation, not asserted)", "pin sets other than those listed", "iterations are independent: fresh draws, no carried state"]
+ASSUMPTIONS = ["IT/SM: alphanumeric account characters (drawn or pinned) restricted to digits (letter patterns: C09-A)", "random and rstr are deterministic functions of the seed (their own cross-process behaviour is outside)", "over-long pinned values are truncated by the code (observation, not asserted)", "pin sets other than those listed", "iterations are independent: fresh draws, no carried state"]
 MAXTASKS = 20
 CHUNK = 400
 
@@ -121,6 +121,7 @@ class SymRandom:
 
 class SymRstr:
     n = 0
+    digits_only = False  # IT / SM: alphanumeric draws restricted to digits (the CIN code forks per letter; letters: C09-A)
 
     def __init__(self, rnd):
         self.rnd = rnd
@@ -147,7 +148,8 @@ class SymRstr:
                 if lits:
                     out.append(lits[ctx.choose_free(len(lits))])
                 else:
-                    out.append(PChar(f"x{SymRstr.n}_{len(out)}", classes).term)
+                    cl = [DIGIT] if (SymRstr.digits_only and DIGIT in classes) else classes
+                    out.append(PChar(f"x{SymRstr.n}_{len(out)}", cl).term)
 
         for op, av in sre_parse.parse(pat):
             if op is sre_c.AT:
@@ -190,7 +192,7 @@ def run_job(job, res):
             chars = []
             for i in range(a, b):
                 kind = cls[i]
-                chars.append(rt.digit_char(f"pin_{k}{i}") if kind == "n" else rt.upper_char(f"pin_{k}{i}") if kind == "a" else rt.alnum_char(f"pin_{k}{i}"))
+                chars.append(rt.digit_char(f"pin_{k}{i}") if kind == "n" or (kind == "c" and country in ("IT", "SM")) else rt.upper_char(f"pin_{k}{i}") if kind == "a" else rt.alnum_char(f"pin_{k}{i}"))
             if chars:
                 out[k] = chars
         return out
@@ -258,6 +260,7 @@ def run_job(job, res):
                                      "call": {"steps": [["call", "spec.replay_preds.c13_random", [country or "", job["reg"], pv], {}]]}})
 
     bban_mod.Rstr = SymRstr
+    SymRstr.digits_only = cc in ("IT", "SM")
     try:
         rt.explore(fn, on_path)
     finally:
